@@ -1177,6 +1177,29 @@ def r17_eq_fields(facts):
                       (" — missing: %s" % sorted(missing)) if missing else ""))
         else:
             c.ok(inst + "#fields", where, "reads exactly {%s} (including the helpers it calls)" % ",".join(sorted(read)))
+        # exact equality compares the numbers themselves: no element is turned into another representation first
+        if (b.get("impl_trait_def"), b["name"]) in (("core::cmp::PartialEq", "eq"), ("core::cmp::PartialEq", "ne")):
+            fl = facts.float or "f64"
+            INTS = ("u8", "u16", "u32", "u64", "u128", "usize", "i8", "i16", "i32", "i64", "i128", "isize")
+            conv = None
+            for x in callees_closure(facts, b):
+                for nb in facts.nested(x):
+                    for n in walk(facts.root(nb)):
+                        k = n.get("k")
+                        if k == "Call" and n.get("args"):
+                            tys = [(a.get("ty") or "").replace("&", "").replace("mut ", "").strip() for a in n["args"] if isinstance(a, dict)]
+                            rt = n.get("ty") or ""
+                            if fl in tys and (rt in INTS or rt == "core::cmp::Ordering" or rt.startswith("[u8;") or rt in ("alloc::string::String",)):
+                                conv = conv or (nb, n, "`%s` turns an element into `%s`" % (show(n)[:50], rt))
+                        elif k == "Cast" and isinstance(n.get("e"), dict):
+                            if (n["e"].get("ty") or "") == fl and (n.get("ty") or "") in INTS:
+                                conv = conv or (nb, n, "`%s` casts an element to `%s`" % (show(n)[:50], n.get("ty")))
+            if conv:
+                c.bad(inst + "#numbers", F.loc(conv[0], conv[1]),
+                      "equality compares a representation of the elements, not the numbers: %s (0.0 and -0.0 are equal values with different representations, "
+                      "and a NaN is not equal to itself)" % conv[2])
+            else:
+                c.ok(inst + "#numbers", where, "elements are compared as floating-point numbers (no conversion to bits, integers, an ordering or text on the way)")
         rows, why = eq_truth_table(facts, b)
         negated = b["name"].endswith("ne")
         if rows is None:
